@@ -283,6 +283,32 @@ class SymStr:
                 return i
         return -1
 
+    def index(self, sub, start=0):
+        i = self.find(sub, start)
+        if i < 0:
+            raise ValueError('substring not found' if self.kind == 't' else 'subsection not found')
+        return i
+
+    def rfind(self, sub):
+        sub = SymStr.of(sub, self.kind)
+        n, m = len(self.cells), len(sub.cells)
+        for i in range(n - m, -1, -1):
+            if s_and(*[cell_eq(self.cells[i + j], sub.cells[j]) for j in range(m)]):     # forks on content
+                return i
+        return -1
+
+    def rindex(self, sub):
+        i = self.rfind(sub)
+        if i < 0:
+            raise ValueError('substring not found')
+        return i
+
+    def endswith(self, p):
+        p = SymStr.of(p, self.kind)
+        if len(p.cells) > len(self.cells):
+            return False
+        return SymStr(self.cells[len(self.cells) - len(p.cells):], self.kind) == p
+
     def __contains__(self, sub):
         return self.find(sub) >= 0
 
